@@ -93,9 +93,24 @@ func VH_C10_close() {
 		vAssert("C10.insert", db.InsertOrUpdate(o) == nil)
 		rows = append(rows, vhRow{o.UUID(), *o})
 	}
+	// the objects may already be on disk when the next write becomes pending
+	if vChoice("preflush", 2) == 1 {
+		vAssert("C10.preflush", db.FlushAllAndCommit(&vObj{}) == nil)
+	}
 	var gone []string
-	switch vChoice("pending_op", 4) {
+	switch vChoice("pending_op", 5) {
 	case 0:
+	case 4: // update (pending again), then delete before the next flush
+		o := &vObj{A: vInt64("A2"), S: "s"}
+		o.Initialize(rows[0].uuid)
+		vAssert("C10.update", db.InsertOrUpdate(o) == nil)
+		d := &vObj{}
+		d.Initialize(rows[0].uuid)
+		vAssert("C10.delete", db.Delete(d) == nil)
+		ok, eerr := db.Exist(d)
+		vAssert("C10.deleted_not_exist", eerr == nil && !ok)
+		gone = append(gone, rows[0].uuid)
+		rows = rows[1:]
 	case 1: // update while pending: last value wins
 		o := &vObj{A: vInt64("A2"), S: "s"}
 		o.Initialize(rows[0].uuid)
